@@ -240,8 +240,11 @@ def main(argv):
         proof_ok, proof_detail = False, "forbidden vernacular: " + "; ".join(forb[:5])
     if not a.no_build:
         closure = ["Properties/%s.vo" % pid, "Corr/%s.vo" % pid]
-        ok, out = coq_build(clean=(tier == "thorough" and os.environ.get("VERIF_NO_CLEAN") != "1"),
-                            only=(closure if tier == "quick" else None))
+        if tier != "quick":
+            # thorough: rebuild from clean the closure of every registered property (props/ENABLED)
+            enabled = open(os.path.join(ROOT, "props", "ENABLED")).read().split()
+            closure = sorted({"%s/%s.vo" % (d, q) for q in enabled + [pid] for d in ("Properties", "Corr")})
+        ok, out = coq_build(clean=(tier == "thorough" and os.environ.get("VERIF_NO_CLEAN") != "1"), only=closure)
         if not ok:
             # does the failure concern this property's closure?
             ok2, out2 = coq_target("Properties/%s.vo Corr/%s.vo" % (pid, pid))
